@@ -165,14 +165,20 @@ func c05LoneBackslash(src []rune, cmds []ast.Command) {
 	nd.Observe(out1)
 }
 
-func C05_F2() { c05(freeRunes(2, false), 5) }
-func C05_F3() { c05(freeRunes(3, false), 5) }
-func C05_T0() { c05([]rune(Templates[nd.Choice(len(Templates))]), 5) }
-func C05_T1() { c05(holeTemplate(), 5) }
-func C18_F2() { c05(freeRunes(2, false), 18) }
-func C18_F3() { c05(freeRunes(3, false), 18) }
-func C18_T0() { c05([]rune(Templates[nd.Choice(len(Templates))]), 18) }
-func C18_T1() { c05(holeTemplate(), 18) }
+func C05_F2()  { c05(freeRunes(2, false), 5) }
+func C05_F3()  { c05(freeRunes(3, false), 5) }
+func C05_T0()  { c05([]rune(Templates[nd.Choice(len(Templates))]), 5) }
+func C05_T1()  { c05(holeTemplate(), 5) }
+func C05_G1()  { c05(genProgram(1, 1), 5) }
+func C05_G12() { c05(genProgram(1, 2), 5) }
+func C18_G12() { c05(genProgram(1, 2), 18) }
+func C05_G2()  { c05(genProgram(2, 2), 5) }
+func C18_G1()  { c05(genProgram(1, 1), 18) }
+func C18_G2()  { c05(genProgram(2, 2), 18) }
+func C18_F2()  { c05(freeRunes(2, false), 18) }
+func C18_F3()  { c05(freeRunes(3, false), 18) }
+func C18_T0()  { c05([]rune(Templates[nd.Choice(len(Templates))]), 18) }
+func C18_T1()  { c05(holeTemplate(), 18) }
 
 // C05_Default: the default configuration (printer.Fprint) on templates with a hole.
 func C05_Default() {
